@@ -13,6 +13,9 @@ use serde_json::{json, Value};
 use std::panic::{catch_unwind, AssertUnwindSafe};
 
 const N_SLOTS: usize = 3;
+/// real slot numbers of the three logical slots in the "wide" layout (0, 64 and 129 alias modulo 64 / 128)
+const WIDE: [usize; 3] = [0, 64, 129];
+const WIDE_SLOTS: usize = 130;
 
 #[derive(Clone, Copy, Debug, PartialEq, Eq)]
 pub enum Op {
@@ -97,20 +100,21 @@ pub enum Run {
     Fail(usize, Fail),
 }
 
-fn read_real(real: &VmState) -> (Vec<usize>, usize, Vec<usize>) {
-    let slots: Vec<usize> = (0..N_SLOTS).map(|i| real.get(i)).collect();
+fn read_real(real: &VmState, wide: bool) -> (Vec<usize>, usize, Vec<usize>) {
+    let nreal = if wide { WIDE_SLOTS } else { N_SLOTS };
+    let slots: Vec<usize> = (0..N_SLOTS).map(|i| real.get(if wide { WIDE[i] } else { i })).collect();
     let n = real.n_slots();
-    let aux: Vec<usize> = if n > N_SLOTS {
-        let sp = real.get(N_SLOTS);
-        (N_SLOTS + 1..sp).map(|i| real.get(i)).collect()
+    let aux: Vec<usize> = if n > nreal {
+        let sp = real.get(nreal);
+        (nreal + 1..sp).map(|i| real.get(i)).collect()
     } else {
         vec![]
     };
     (slots, real.backtrack_count(), aux)
 }
 
-fn compare(step: usize, what: &str, real: &VmState, m: &Model) -> Option<Fail> {
-    let (slots, count, aux) = read_real(real);
+fn compare(step: usize, what: &str, real: &VmState, m: &Model, wide: bool) -> Option<Fail> {
+    let (slots, count, aux) = read_real(real, wide);
     let maux: Vec<usize> = m.cur.aux.iter().map(|(v, _)| *v).collect();
     if slots != m.cur.slots || count != m.branches.len() || aux != maux {
         return Some(Fail::new(
@@ -127,15 +131,20 @@ fn show(v: &[usize]) -> Vec<String> {
 }
 
 pub fn execute(ops: &[Op], unwind: bool) -> Run {
-    let r = catch_unwind(AssertUnwindSafe(|| execute_inner(ops, unwind)));
+    execute_layout(ops, unwind, false)
+}
+
+/// `wide`: the three logical slots live at real slots 0, 64 and 129 of a 130-slot state
+pub fn execute_layout(ops: &[Op], unwind: bool, wide: bool) -> Run {
+    let r = catch_unwind(AssertUnwindSafe(|| execute_inner(ops, unwind, wide)));
     match r {
         Ok(r) => r,
         Err(e) => Run::Fail(ops.len(), Fail::new("panic", "no panic under the VM's own preconditions", format!("PANIC({})", engine::panic_msg(e)))),
     }
 }
 
-fn execute_inner(ops: &[Op], unwind: bool) -> Run {
-    let mut real = VmState::new(N_SLOTS, 1_000_000);
+fn execute_inner(ops: &[Op], unwind: bool, wide: bool) -> Run {
+    let mut real = VmState::new(if wide { WIDE_SLOTS } else { N_SLOTS }, 1_000_000);
     let mut m = Model { cur: MState { slots: vec![usize::MAX; N_SLOTS], aux: vec![] }, branches: vec![], written: vec![vec![false; N_SLOTS]], interesting_pending: false };
     let mut nontrivial = false;
     let mut commits = 0;
@@ -167,7 +176,7 @@ fn execute_inner(ops: &[Op], unwind: bool) -> Run {
             Op::Save(s, v) => {
                 m.cur.slots[s] = v;
                 m.written.last_mut().unwrap()[s] = true;
-                real.save(s, v);
+                real.save(if wide { WIDE[s] } else { s }, v);
             }
             Op::Enter => {
                 m.cur.aux.push((m.branches.len(), true));
@@ -223,7 +232,7 @@ fn execute_inner(ops: &[Op], unwind: bool) -> Run {
                 }
             }
         }
-        if let Some(f) = compare(i, &format!("{:?}", op), &real, &m) {
+        if let Some(f) = compare(i, &format!("{:?}", op), &real, &m, wide) {
             return Run::Fail(i, f);
         }
     }
@@ -237,7 +246,7 @@ fn execute_inner(ops: &[Op], unwind: bool) -> Run {
             if got != (pc, ix) {
                 return Run::Fail(ops.len() + k, Fail::new("pop-result", format!("{:?}", (pc, ix)), format!("{:?} (final unwind)", got)));
             }
-            if let Some(f) = compare(ops.len() + k, "final unwind pop", &real, &m) {
+            if let Some(f) = compare(ops.len() + k, "final unwind pop", &real, &m, wide) {
                 return Run::Fail(ops.len() + k, f);
             }
             if m.interesting_pending {
@@ -327,6 +336,9 @@ fn valid_prefix(ops: &[Op]) -> Vec<Op> {
 }
 
 fn shrink_ops(ops: &[Op], kind: &str) -> Vec<Op> {
+    let wide = kind.ends_with("#wide");
+    let kind = kind.trim_end_matches("#wide");
+    let execute = |o: &[Op], u: bool| execute_layout(o, u, wide);
     let mut cur = ops.to_vec();
     loop {
         let mut improved = false;
@@ -346,17 +358,18 @@ fn shrink_ops(ops: &[Op], kind: &str) -> Vec<Op> {
 }
 
 fn violation(ops: &[Op], f: Fail) -> Violation {
+    let wide = f.kind.ends_with("#wide");
     let small = shrink_ops(ops, &f.kind);
-    let f2 = match execute(&small, true) {
+    let f2 = match execute_layout(&small, true, wide) {
         Run::Fail(_, f2) => f2,
-        _ => f,
+        _ => Fail { kind: f.kind.trim_end_matches("#wide").to_string(), ..f },
     };
-    Violation { case: json!({"ops": small.iter().map(op_json).collect::<Vec<_>>(), "slots": N_SLOTS}), fail: f2 }
+    Violation { case: json!({"ops": small.iter().map(op_json).collect::<Vec<_>>(), "slots": N_SLOTS, "wide": wide}), fail: f2 }
 }
 
 pub fn run(ctx: &RunCtx) -> Outcome {
     let mut o = Outcome::default();
-    o.rule = "histories over the VM's backtracking state (verif-hooks wrapper): push (create alternative), pop (abandon), save(slot in 0..3, value in 0..3), enter_atomic (= stack_push(backtrack_count())), commit_atomic (= backtrack_cut(stack_pop())), raw stack_push / stack_pop; generated only under the VM's own preconditions (pop needs a branch, commit needs an atomic entry on top of the auxiliary stack, which - being restored on backtrack - was pushed on the current path). Exhaustive up to a length bound, proptest histories with bursts (push + writes, up to ~160 operations) beyond. Oracle: whole-state-copy model; after EVERY step all slots, the branch count, the auxiliary stack contents and, on pop, the returned (pc, ix) are compared; at the end both are unwound completely and compared after every pop. Non-trivial = a commit that discards >= 2 branches with writes to the same slot on >= 2 discarded levels, followed by a pop. Distinct = distinct operation sequences. Program-level companion: captures of atomic / look-around / conditional patterns against the reference matcher (as C02).".into();
+    o.rule = "histories over the VM's backtracking state (verif-hooks wrapper): push (create alternative), pop (abandon), save(slot in 0..3, value in 0..3; the three slots are laid out either as 0,1,2 or, in the wide layout, as slots 0, 64 and 129 of a 130-slot state), enter_atomic (= stack_push(backtrack_count())), commit_atomic (= backtrack_cut(stack_pop())), raw stack_push / stack_pop; generated only under the VM's own preconditions (pop needs a branch, commit needs an atomic entry on top of the auxiliary stack, which - being restored on backtrack - was pushed on the current path). Exhaustive up to a length bound, proptest histories with bursts (push + writes, up to ~160 operations) beyond. Oracle: whole-state-copy model; after EVERY step all slots, the branch count, the auxiliary stack contents and, on pop, the returned (pc, ix) are compared; at the end both are unwound completely and compared after every pop. Non-trivial = a commit that discards >= 2 branches with writes to the same slot on >= 2 discarded levels, followed by a pop. Distinct = distinct operation sequences. Program-level companion: captures of atomic / look-around / conditional patterns against the reference matcher (as C02).".into();
     o.assumptions = vec!["the wrapper VmState forwards to the private State unchanged (src/verif_hooks.rs)".into()];
     o.required_classes = vec!["history:commit-cuts>=2".into(), "history:valid".into()];
     let maxlen = if ctx.quick() { 6 } else { 7 };
@@ -378,6 +391,12 @@ pub fn run(ctx: &RunCtx) -> Outcome {
                     for o in ops.iter_mut() {
                         *o = OPS[(x % 16) as usize];
                         x /= 16;
+                    }
+                    if len <= 5 {
+                        if let Run::Fail(_, f) = execute_layout(&ops, true, true) {
+                            found.lock().unwrap().push((ops.clone(), Fail { kind: format!("{}#wide", f.kind), ..f }));
+                            return st;
+                        }
                     }
                     match execute(&ops, true) {
                         Run::Invalid(_) => *st.skipped.entry("history:precondition-violated".into()).or_insert(0) += 1,
@@ -430,7 +449,8 @@ pub fn run(ctx: &RunCtx) -> Outcome {
             let strat = proptest::collection::vec(proptest::num::u8::ANY, 0..120);
             let res = runner.run(&strat, |bytes| {
                 let ops = valid_prefix(&decode_ops(&bytes));
-                match execute(&ops, true) {
+                let wide = bytes.first().map_or(false, |b| b % 2 == 1);
+                match execute_layout(&ops, true, wide) {
                     Run::Invalid(_) => Ok(()),
                     Run::Ok { nontrivial, cut_branches, .. } => {
                         if !failed.get() {
@@ -461,8 +481,9 @@ pub fn run(ctx: &RunCtx) -> Outcome {
             let found = match res {
                 Err(TestError::Fail(_, bytes)) => {
                     let ops = valid_prefix(&decode_ops(&bytes));
-                    match execute(&ops, true) {
-                        Run::Fail(_, f) => Some((ops, f)),
+                    let wide = bytes.first().map_or(false, |b| b % 2 == 1);
+                    match execute_layout(&ops, true, wide) {
+                        Run::Fail(_, f) => Some((ops, Fail { kind: if wide { format!("{}#wide", f.kind) } else { f.kind }, ..f })),
                         _ => None,
                     }
                 }
@@ -499,7 +520,8 @@ pub fn replay(ctx: &RunCtx, case: &Value) -> Result<Option<Fail>, String> {
         return replay_pat(ctx, &p, case);
     }
     let ops: Vec<Op> = case.get("ops").and_then(|x| x.as_array()).ok_or("no ops")?.iter().map(op_from).collect::<Option<Vec<_>>>().ok_or("bad op")?;
-    Ok(match execute(&ops, true) {
+    let wide = case.get("wide").and_then(|w| w.as_bool()).unwrap_or(false);
+    Ok(match execute_layout(&ops, true, wide) {
         Run::Fail(_, f) => Some(f),
         Run::Invalid(i) => return Err(format!("history violates a precondition at step {}", i)),
         Run::Ok { .. } => None,
